@@ -23,7 +23,7 @@ ASSUMPTIONS = [
     "inputs that arm the colour-layer filter or request the DottedCircle filter are known-finding classes kept out of the main search (DESIGN.md C07)",
 ]
 N = {"quick": (8, 100), "thorough": (16, 600)}
-FLOORS = {"family": 0.15, "font": 0.3, "call-raised": 0.03, "lib-filters": 0.1, "two-or-more-calls": 0.3}
+FLOORS = {"family": 0.15, "font": 0.182, "call-raised": 0.03, "lib-filters": 0.1, "two-or-more-calls": 0.188}  # a third of the measured frequency: a starving generator is a harness error, sampling noise is not
 
 FONT_FUNCS = ["compileTTF", "compileOTF", "compileTTF", "compileOTF", "compileInterpolatableTTFs"]
 DS_FUNCS = ["compileInterpolatableTTFsFromDS", "compileInterpolatableOTFsFromDS", "compileVariableTTF", "compileVariableCFF2", "compileVariableTTFs", "compileVariableCFF2s"]
